@@ -162,8 +162,10 @@ class Driver(object):
                 if isinstance(v, types.FunctionType):
                     self.codes.add(v.__code__)
 
-    def operands(self, cfg, ul, ur, a, b):
+    def operands(self, cfg, ul, ur, a, b, same=False):
         x = self.Q(a, fresh_unit(ul)) if cfg in ('QN', 'QQ', 'Q') else a
+        if same:
+            return x, x          # one Quantity object on both sides (q == q, q - q ...)
         y = self.Q(b, fresh_unit(ur)) if cfg in ('NQ', 'QQ') else b
         return x, y
 
@@ -180,9 +182,9 @@ class Driver(object):
                                  % (op, a, b, m, LIMIT_S))
         return t
 
-    def wrapped(self, op, cfg, ul, ur, a, b=None, m=None):
+    def wrapped(self, op, cfg, ul, ur, a, b=None, m=None, same=False):
         f = FN[op]
-        x, y = self.operands(cfg, ul, ur, a, b)
+        x, y = self.operands(cfg, ul, ur, a, b, same)
         if op == 'pow3':
             t = token(lambda: f(x, y, m))
         elif op in UNARY or op in CONV:
@@ -292,6 +294,13 @@ def build(tier, drv, rng):
                                    'units': label_of(cfg, ul, ur),
                                    'wrapped': drv.wrapped(op, cfg, ul, ur, a, b, m), 'raw': raw,
                                    'i': i, 'j': j, 'k': k})
+                # the same Quantity object on both sides: what the number gives against itself
+                if i == j and ('QQ', 'kW', 'kW') in variants:
+                    for v in (('QQ', 'kW', 'kW'), ('QQ', 'none', 'none')):
+                        if v in variants:
+                            evs[v].append({'t': 'o', 'op': op, 'cfg': v[0], 'ul': v[1], 'ur': v[2], 'units': 'same',
+                                           'wrapped': drv.wrapped(op, v[0], v[1], v[2], a, a, m, same=True),
+                                           'raw': raw, 'i': i, 'j': j, 'k': k, 'same': 1})
         for v in variants:
             chunked(evs[v])
 
@@ -688,8 +697,10 @@ def replay(path):
     m = dec(c['modulus']) if 'modulus' in c else None
     watchdog(True)
     try:
+        if ev.get('same'):
+            b = a                  # the same object on both sides
         ev['raw'] = drv.raw(ev['op'], a, b, m)
-        ev['wrapped'] = drv.wrapped(ev['op'], ev['cfg'], ev['ul'], ev['ur'], a, b, m)
+        ev['wrapped'] = drv.wrapped(ev['op'], ev['cfg'], ev['ul'], ev['ur'], a, b, m, same=bool(ev.get('same')))
     finally:
         watchdog(False)
     rep = Report('C20', 'quick')
